@@ -214,9 +214,14 @@ impl InstructionGenerator {
         self.label("do", pos);
         self.generate_expression_instructions(condition);
         if kind == DoLoopConditionKind::Until {
-            self.push(Instruction::NotA, pos);
+            // leave the loop when the condition is true, i.e. not zero
+            // (NOT is bitwise: NOT 1 is -2, which is still true)
+            self.jump_if_false("do-body", pos);
+            self.jump("loop", pos);
+            self.label("do-body", pos);
+        } else {
+            self.jump_if_false("loop", pos);
         }
-        self.jump_if_false("loop", pos);
         self.visit(statements);
         self.mark_statement_address(); // to be able to resume on error
         self.jump("do", pos);
@@ -235,10 +240,13 @@ impl InstructionGenerator {
         self.mark_statement_address(); // to be able to resume on error
         self.generate_expression_instructions(condition);
         if kind == DoLoopConditionKind::Until {
-            self.push(Instruction::NotA, pos);
+            // repeat while the condition is false, i.e. zero
+            // (NOT is bitwise: NOT 1 is -2, which is still true)
+            self.jump_if_false("do", pos);
+        } else {
+            self.jump_if_false("loop", pos);
+            self.jump("do", pos);
         }
-        self.jump_if_false("loop", pos);
-        self.jump("do", pos);
         self.label("loop", pos);
     }
 }
